@@ -85,7 +85,7 @@ class World(object):
         if self.factory_fails:
             from cassandra.connection import ConnectionException
             raise PyExc(make_exception(self.vc.ctx, ConnectionException, ['refused'], {}))
-        c = Conn(self, 'new%d' % len(self.opened))
+        c = (getattr(self, 'conn_class', None) or Conn)(self, 'new%d' % len(self.opened))
         self.log.append(('open', c))
         return c
 
